@@ -1,10 +1,21 @@
-HOOK_COMMITS = ["c20e566"]
+HOOK_COMMITS = ["c20e566", "84450b7"]
 NOTES = ("Every check runs: translator -> lake build of the property's theorem module and the driver -> #print axioms audit -> "
          "cargo build of the harness against /repo's working tree with verif-hooks -> corpus + generated correspondence cases. "
          "hooks.add_only is false because two functions in src/regex.rs bind their result to a local before returning it so that "
          "the hook can record the value actually returned (no line is deleted, behaviour is unchanged).")
 NOT_YET = {}
 CLAIMS = {
+    "C14": {
+        "text": "Machine-checked Lean theorems: the wire layout of the model equals the layout extracted from the Rust source on every run; "
+                "binary round trip for every representable definition (all fields, bit-exact scores); same bytes on re-serialization; "
+                "magic/version checks; exporting a canonically ordered definition returns it for every hash iteration order. Model tied to "
+                "the real serializer and exporter byte for byte on shipped and generated definitions covering every variant.",
+        "design_ref": "DESIGN.md §6 C14",
+        "note": "Trusted: Lean kernel + 3 standard axioms; translator (tools/extract.py) for the layout; postcard wire details (varint limits, "
+                "tags, char-as-string) are modelled from reading postcard 1.1.3 and tied by correspondence; behaviour equality of rebuilt "
+                "tokenizers is measured (IMPLEQ), the congruence argument is not a separate theorem.",
+        "technique": "Lean 4 proof over executable model + translator-regenerated layout + differential correspondence",
+    },
     "C18": {
         "text": "PARTIAL (regex oracle). Machine-checked Lean theorems encode_never_panics and decode_never_panics: on every well-formed "
                 "tokenizer, every valid UTF-8 text / every id sequence and sane external libraries (ExtSane) the model pipeline never "
